@@ -46,7 +46,9 @@ OpPool == {
   MkOp("add", <<>>, <<>>, VObj), MkOp("replace", <<>>, <<>>, Obj(<<X>>, <<Arr(<<>>)>>)),
   \* a member name that reads as a percent-encoded character (it is not one unless the caller asks for URI decoding)
   MkOp("add", <<<<37, 52, 49>>>>, <<>>, IntV(4)), MkOp("add", <<X, <<37, 50, 53>>>>, <<>>, IntV(5)),
-  MkOp("add", <<X>>, <<>>, Null), MkOp("test", <<X>>, <<>>, Null), MkOp("replace", <<R, N0>>, <<>>, Null), MkOp("addne", <<W>>, <<>>, Null) }
+  MkOp("add", <<X>>, <<>>, Null), MkOp("test", <<X>>, <<>>, Null), MkOp("replace", <<R, N0>>, <<>>, Null), MkOp("addne", <<W>>, <<>>, Null),
+  \* "-0" is not a canonical integer: a member name in an object, nothing in an array
+  MkOp("add", <<O, <<45, 48>>>>, <<>>, IntV(3)), MkOp("add", <<R, <<45, 48>>>>, <<>>, IntV(3)) }
 
 Docs == { Obj(<<R>>, <<Arr(<<IntV(1), IntV(2)>>)>>),
           Obj(<<X, R>>, <<Obj(<<A>>, <<Arr(<<>>)>>), Arr(<<Obj(<<A>>, <<Arr(<<>>)>>)>>)>>),
